@@ -455,6 +455,7 @@ def dict_filter(ctx):
     mut.replace_stmt('db', 'EncryptedString.process_bind_param', 'return aes_encrypt(value, self.key)', 'return value', 'EncryptedString: never encrypts'),
     mut.replace_expr('db', 'DbKey', 'EncryptedBinary(48)', 'LargeBinary(48)', 'DbKey.private column is no longer an encrypted type'),
     mut.replace_expr('wallets', 'WalletKey.from_key', "name[:80]", "k.wif(is_private=True)", 'from_key stores the private wif in the plain name column'),
+    mut.replace_stmt('db', '_get_encryption_key', 'key = bytes().fromhex(DB_FIELD_ENCRYPTION_KEY)', 'key = bytes().fromhex(DB_FIELD_ENCRYPTION_KEY)\nif len(key) != 32:\n    key = None', 'a configured key of another length switches encryption off'),
 ])
 def db_columns(ctx):
     """DbKey.private / DbKey.wif are Encrypted* columns whose process_bind_param returns aes_encrypt(value, key) whenever a value
@@ -503,6 +504,10 @@ def db_columns(ctx):
             rv = intv.specialise(term(e.value), {mode: 'configured', other: None})
             ctx.saw('_get_encryption_key with %s -> key %s' % (mode[1], show(rv[1])[:60]))
             ctx.require(rv[1] is not None, q, 'no key is derived when only %s is configured' % mode[1], fn)
+            none_when = _none_alternatives(rv[1])
+            if rv[1] is not None and none_when:
+                ctx.violate(q, 'with %s configured the key is None when %s: the column types then store and return the values as they are' % (mode[1], show(none_when[0])[:100]), fn,
+                            'field encryption that was asked for is silently switched off (fails open): private keys and WIFs are written to the database file in plaintext')
     # only the encrypted columns receive private values
     T = compute_taint(ctx)
     for q, cls in (('wallets:WalletKey.from_key', 'wallets:WalletKey'), ('wallets:Wallet._new_key_multisig', 'wallets:Wallet')):
@@ -521,6 +526,18 @@ def db_columns(ctx):
                                 'private material is readable in the database file even with field encryption on')
         if q.endswith('from_key'):
             ctx.floor(n, 2, 'DbKey(...) constructions in from_key')
+
+
+def _none_alternatives(t):
+    """tests under which a conditional term evaluates to None"""
+    out = []
+    if isinstance(t, tuple) and t and t[0] == 'cond':
+        if t[2] is None:
+            out.append(t[1])
+        if t[3] is None:
+            out.append(('not', t[1]))
+        out += _none_alternatives(t[2]) + _none_alternatives(t[3])
+    return out
 
 
 def _unglobal(t):
@@ -591,3 +608,88 @@ def wallet_wif(ctx):
                         'a wallet created from a private account key returns its xprv from wif() / wif(is_private=False)')
     if not n:
         ctx.unsure('%s: return of the main key wif not found' % q)
+
+
+def _model_links(mod):
+    """{class: {attribute: target class}} for relationship(...) attributes and their backrefs in db.py"""
+    links = {}
+    for cname, c in mod.classes.items():
+        for s in c.body:
+            if isinstance(s, ast.Assign) and isinstance(s.value, ast.Call) and norm(s.value.func) == 'relationship' and s.value.args and isinstance(s.value.args[0], ast.Constant):
+                tgt = s.value.args[0].value
+                for t in s.targets:
+                    if isinstance(t, ast.Name):
+                        links.setdefault(cname, {})[t.id] = tgt
+                for k in s.value.keywords:
+                    if k.arg == 'backref' and isinstance(k.value, ast.Constant):
+                        links.setdefault(tgt, {})[k.value.value] = cname
+    return links
+
+
+@PROP.obligation('C16.model-reprs', canaries=[
+    mut.insert_before('db', None, "key_order = Column(Integer, Sequence('key_multisig_children_id_seq'))", "def __repr__(self):\n    return '<DbKeyMultisigChildren(child_key=%s>' % self.child_key", 'association row prints the child key row (and its wif)'),
+    mut.replace_expr('db', 'DbTransaction.__repr__', 'self.confirmations', 'self.wallet.keys', 'DbTransaction.__repr__ prints the key rows of its wallet'),
+])
+def model_reprs(ctx):
+    """Every __repr__ / __str__ of the ORM models in db.py: the columns it prints are neither DbKey.private / DbKey.wif nor - through a
+    relationship or backref attribute - a DbKey row or a list of them, whose own repr prints the wif column (the recorded finding D20):
+    Wallet.keys(as_dict=True), as_dict() and as_json() copy the loaded relationships of a row and serialise unknown objects with str()."""
+    mod = ctx.repo.mod('db')
+    links = _model_links(mod)
+    secret_cols = {'DbKey': {'private', 'wif'}}
+    # models whose own repr prints secret columns
+    leaky = set()
+    reprs = []
+    for cname in sorted(mod.classes):
+        for meth in ('__repr__', '__str__'):
+            f = mod.functions.get('%s.%s' % (cname, meth))
+            if f is not None:
+                reprs.append((cname, meth, f))
+                used = set(a.attr for a in ast.walk(f) if isinstance(a, ast.Attribute) and isinstance(a.value, ast.Name) and a.value.id == 'self')
+                if used & secret_cols.get(cname, set()):
+                    leaky.add(cname)
+    ctx.saw('models with a repr: %s; repr prints secret columns: %s' % (sorted(set(c for c, _, _ in reprs)), sorted(leaky)))
+    if 'DbKey' not in leaky:
+        leaky.add('DbKey')      # the row object itself carries private / wif: a default object repr is harmless, but keep the target marked
+    n = 0
+    for cname, meth, f in reprs:
+        inner = set(id(x.value) for x in ast.walk(f) if isinstance(x, ast.Attribute))
+        for a in ast.walk(f):
+            if not (isinstance(a, ast.Attribute) and isinstance(a.ctx, ast.Load)) or id(a) in inner:
+                continue
+            chain = []
+            b = a
+            while isinstance(b, ast.Attribute):
+                chain.append(b.attr)
+                b = b.value
+            if not (isinstance(b, ast.Name) and b.id == 'self'):
+                continue
+            chain.reverse()
+            n += 1
+            cur = cname
+            for i, attr in enumerate(chain):
+                if cur is None:
+                    break
+                nxt = links.get(cur, {}).get(attr)
+                last = i == len(chain) - 1
+                if nxt is None:
+                    if attr in secret_cols.get(cur, set()) and cur != cname:
+                        ctx.violate('db:%s.%s' % (cname, meth), 'prints self.%s, the %s column of a related %s row' % ('.'.join(chain), attr, cur), a, 'the representation of the row carries private key material')
+                    cur = None
+                elif last and nxt in leaky:
+                    ctx.violate('db:%s.%s' % (cname, meth), 'prints self.%s, a %s row (relationship): the repr of that row prints its wif column - the extended PRIVATE key of an owned cosigner' % ('.'.join(chain), nxt), a,
+                                'once the relationship is loaded, Wallet.keys(as_dict=True) / as_json() of a multisig wallet contain the private key of the owned cosigner as text')
+                    cur = None
+                else:
+                    cur = nxt
+    ctx.saw('%d attribute reads in %d model reprs checked against the relationship graph (%d relationship attributes)' % (n, len(reprs), sum(len(v) for v in links.values())))
+    ctx.floor(len(reprs), 4, 'model reprs')
+    ctx.floor(sum(len(v) for v in links.values()), 15, 'relationship attributes')
+
+
+def _parent_use(fn, node):
+    for p in ast.walk(fn):
+        for c in ast.iter_child_nodes(p):
+            if c is node:
+                return p
+    return None
